@@ -231,6 +231,15 @@ CLAIMS = {
             "the edit scripts and the matching of changed interfaces (runtime); the same set of changed interfaces in "
             "both directions",
             "§8.6 (added after the design: C11 was first declared not applicable)"),
+    "C41": ("finite-domain abstract interpretation of string_begins_with / string_ends_with (worlds over emptiness and "
+            "length order), structural trim rule for split_string, mirror-invariance of every condition of "
+            "decl_names_equal under exchanging its arguments (canonical forms)",
+            "the prefix/suffix helpers answer as the definition says in every world they decide without comparing "
+            "contents and agree with each other (begins_with(\"\", \"\") did not: repaired); split_string trims the "
+            "fields it returns on both sides (it did not: repaired); decl_names_equal treats its two arguments alike",
+            "the content comparisons and the `::` scanning arithmetic (value-level); coincidence with string equality "
+            "for names without anonymous parts",
+            "§8.6 (added after the design: C41 was first declared not applicable)"),
     "C37": ("small abstract interpretation of elf_helpers::find_hash_table_section_index (section-type facts from the "
             "sh_type tests, tags on values derived from the current section, flags, reaching definitions of the "
             "out-parameters at each return) + sibling agreement of the three lookups' elf_symbol::create arguments",
@@ -276,7 +285,6 @@ NOT_APPLICABLE = {
     "C26": "set relation over runtime artifacts (types by declaration location)",
     "C29": "set relation over runtime artifacts (undefined symbols of the application)",
     "C35": "generic memory safety / UB of 120 kLOC has no repo-specific structural rule; sanitizers are a dynamic technique",
-    "C41": "pure string functions whose specification is about values",
     "C43": "debug-info format independence: runtime values decoded by elfutils",
 }
 
